@@ -542,9 +542,13 @@ func (s *SetOperation) Format(opts FormatOptions) string {
 	f := newFormatter(opts)
 	sb := f.sb
 
+	// The operands are parts of this statement: only the whole gets a semicolon.
+	operandOpts := opts
+	operandOpts.AddSemicolon = false
+
 	if s.Left != nil {
 		if ls, ok := s.Left.(Formatter); ok {
-			sb.WriteString(ls.Format(opts))
+			sb.WriteString(ls.Format(operandOpts))
 		} else {
 			sb.WriteString(stmtSQL(s.Left))
 		}
@@ -558,7 +562,7 @@ func (s *SetOperation) Format(opts FormatOptions) string {
 	sb.WriteString(f.clauseSep())
 	if s.Right != nil {
 		if rs, ok := s.Right.(Formatter); ok {
-			sb.WriteString(rs.Format(opts))
+			sb.WriteString(rs.Format(operandOpts))
 		} else {
 			sb.WriteString(stmtSQL(s.Right))
 		}
@@ -1141,7 +1145,10 @@ func formatWith(w *WithClause, f *formatter) string {
 		}
 		s += f.kw("AS") + " ("
 		if qs, ok := cte.Statement.(Formatter); ok {
-			s += qs.Format(f.opts)
+			// the CTE body sits inside parentheses: no statement terminator there
+			bodyOpts := f.opts
+			bodyOpts.AddSemicolon = false
+			s += qs.Format(bodyOpts)
 		} else {
 			s += stmtSQL(cte.Statement)
 		}
